@@ -6,7 +6,8 @@
 // one testing/synctest bubble (virtual clock): every base operation of the udpmux component works on the
 // embedded UDPMuxDefault; on top of that
 //
-//	new <ap> <ttl_ms>                         build the mux (ttl 0 = the default 25 s)
+//	new <ap> <ttl_ms> [s]                     build the mux (ttl 0 = the default 25 s); `s` = the driver judges the session
+//	                                          by the STRICT reading of the monitor (the harness ignores it)
 //	xoraddr <server> <deadline_ms>            start GetXORMappedAddr in a goroutine -> waiter x<n>
 //	tick <ms>                                 let virtual time pass
 //	in 0 <src> <kind> <pid>                   one datagram; kinds of udpmux plus
@@ -46,6 +47,7 @@ func init() {
 }
 
 type vUuWaiter struct {
+	key      netip.AddrPort
 	mu       sync.Mutex
 	done     bool
 	res      string
@@ -67,6 +69,8 @@ type vUuSess struct {
 	reqDst  []string // raw destination tokens of the requests written during the current operation
 	// outstanding[key]: the latest discovery request to key has not been answered by a consumed own response
 	outstanding map[netip.AddrPort]bool
+	// lastAnswer[key]: mapped address of the latest own answer taken from key ("" = none)
+	lastAnswer map[netip.AddrPort]string
 }
 
 var vUuCur *vUuSess
@@ -81,7 +85,7 @@ func vUuExec(o *vOut, t []string) string {
 			<-vUuCur.res
 			vUuCur = nil
 		}
-		u := &vUuSess{vUmSess: vUmStart(o), outstanding: map[netip.AddrPort]bool{}}
+		u := &vUuSess{vUmSess: vUmStart(o), outstanding: map[netip.AddrPort]bool{}, lastAnswer: map[netip.AddrPort]string{}}
 		u.vUmSess.ext = u.op
 		vUuCur = u
 	}
@@ -194,16 +198,6 @@ func vUuPayload(kind string, pid int, own *[stun.TransactionIDSize]byte) ([]byte
 	return m.Raw, true
 }
 
-// does the x-kind carry a well-formed XOR-MAPPED-ADDRESS (i.e. would a table entry for its source take it)?
-func vUuCarriesValue(kind string) bool {
-	switch {
-	case strings.HasPrefix(kind, "xs:"), strings.HasPrefix(kind, "xe:"), strings.HasPrefix(kind, "xi:"),
-		strings.HasPrefix(kind, "xr:"), strings.HasPrefix(kind, "xq:"):
-		return true
-	}
-	return false
-}
-
 func (s *vUuSess) nowMs() int64 { return time.Since(s.t0).Milliseconds() }
 
 func (s *vUuSess) snapshot() map[netip.AddrPort]*stun.XORMappedAddress {
@@ -232,6 +226,10 @@ func (s *vUuSess) effects(before map[netip.AddrPort]*stun.XORMappedAddress) stri
 		if w.done && !w.reported {
 			w.reported = true
 			out += fmt.Sprintf(" x%d=%s", i, w.res)
+			if strings.HasPrefix(w.res, "ok:") && w.res[3:] != s.lastAnswer[w.key] {
+				// observation U1 (follow-up): the call returns an address no answer of the server carried
+				s.o.stat("obs.uni_answer.call_returned_address_of_a_datagram_that_was_no_answer")
+			}
 		}
 		w.mu.Unlock()
 	}
@@ -254,7 +252,7 @@ func vUuErr(err error) string {
 
 func (s *vUuSess) op(t []string) string {
 	if t[1] == "new" {
-		if len(t) != 4 {
+		if len(t) != 4 && !(len(t) == 5 && t[4] == "s") {
 			return "bad-op"
 		}
 		ttl, err := strconv.Atoi(t[3])
@@ -333,7 +331,7 @@ func (s *vUuSess) op1(t []string) string {
 		if !ok || err != nil || d < 0 {
 			return "bad-op"
 		}
-		w := &vUuWaiter{}
+		w := &vUuWaiter{key: canonicalAddrPort(a.addrPort())}
 		s.waiters = append(s.waiters, w)
 		id := len(s.waiters) - 1
 		go func() {
@@ -412,8 +410,24 @@ func (s *vUuSess) op1(t []string) string {
 				took = true
 			}
 		}
-		if took && s.outstanding[key] && own != nil && strings.HasPrefix(t[4], "xs:o:") {
-			s.outstanding[key] = false
+		// observation statistics (the verdict is the monitor's): what the layer took although it is not the answer
+		// to its own pending request (U1), and its own answer delivered to a connection as well (U2)
+		if took {
+			legit := s.outstanding[key] && own != nil && strings.HasPrefix(t[4], "xs:o:")
+			switch {
+			case legit:
+				s.outstanding[key] = false
+				s.lastAnswer[key] = strings.Split(t[4], ":")[2]
+				if res != "none" {
+					s.o.stat("obs.uni_both.own_answer_also_delivered_to_a_connection")
+				}
+			case !strings.HasPrefix(t[4], "xs:"):
+				s.o.stat("obs.uni_consume.not_a_success_response")
+			case !(strings.HasPrefix(t[4], "xs:o:") && own != nil):
+				s.o.stat("obs.uni_consume.foreign_transaction_id")
+			default:
+				s.o.stat("obs.uni_consume.no_request_unanswered")
+			}
 		}
 		s.o.stat("in." + k + map[bool]string{true: ".taken", false: ".passed"}[took] + map[bool]string{true: ".none", false: ".delivered"}[res == "none"])
 		return res
@@ -474,21 +488,23 @@ func (s *vUuSess) op1(t []string) string {
 
 var vUuURLs = []string{"stun:h1:3478", "turn:h2:3478?transport=udp", "X", ""}
 
-// vUuGen: by default only "clean" traffic is generated towards a server address that has a table entry — a
-// datagram carrying a well-formed XOR-MAPPED-ADDRESS is fed from such an address only if it is the success
-// response to the latest, still unanswered discovery request and no connection owns that address; with
-// VERIF_UDPMUXUNI_FULL=1 every kind is fed from every address (notes/C12.md, candidate findings U1/U2).
+// vUuGen: every kind of datagram from every address of the session's pool (servers with a table entry, addresses a
+// connection owns, both at once).  VERIF_UDPMUXUNI_STRICT=1 marks the sessions `s`: the driver then judges them by the
+// strict reading of the monitor (uni_consume / uni_both become verdicts; notes/C12.md, observations U1/U2).
 func vUuGen(o *vOut, r *vRand, thorough bool, _ []string, emit func(string)) {
 	sessions, maxOps := 900, 40
 	if thorough {
 		sessions, maxOps = 12000, 160
 	}
 	sessions = vEnvInt("VERIF_UDPMUXUNI_SESSIONS", sessions)
-	full := os.Getenv("VERIF_UDPMUXUNI_FULL") != ""
+	strict := ""
+	if os.Getenv("VERIF_UDPMUXUNI_STRICT") != "" {
+		strict = " s"
+	}
 	pid := 0
 	for si := 0; si < sessions; si++ {
 		ttl := []int{1000, 1000, 3000, 0}[r.intn(4)]
-		emit(fmt.Sprintf("udpmuxuni new %d %d", r.intn(2), ttl))
+		emit(fmt.Sprintf("udpmuxuni new %d %d%s", r.intn(2), ttl, strict))
 		nh := 0
 		// servers and peers from one small pool: a peer may sit on the server's transport address, and the
 		// same server is named through several raw forms
@@ -558,22 +574,6 @@ func vUuGen(o *vOut, r *vRand, thorough bool, _ []string, emit func(string)) {
 			default:
 				kind = "su:" + u + []string{"", "X", "stun"}[r.intn(3)] + ":rem"
 			}
-			if !full && vUuCarriesValue(kind) && vUuCur != nil {
-				if a, ok := vUmParseAddr(src); ok {
-					s := vUuCur
-					key := canonicalAddrPort(a.addrPort())
-					s.uni.mu.Lock()
-					_, entry := s.uni.xorMappedMap[key]
-					s.uni.mu.Unlock()
-					s.muxes[0].addressMapMu.Lock()
-					_, bound := s.muxes[0].addressMap[key]
-					s.muxes[0].addressMapMu.Unlock()
-					if entry && !(strings.HasPrefix(kind, "xs:o:") && s.outstanding[key] && !bound) {
-						o.stat("gen.cleaned")
-						kind = "xn:" + []string{"o", "w"}[r.intn(2)]
-					}
-				}
-			}
 			emit(fmt.Sprintf("udpmuxuni in 0 %s %s %d", src, kind, pid))
 		}
 		n := 8 + r.intn(maxOps-8)
@@ -614,17 +614,6 @@ func vUuGen(o *vOut, r *vRand, thorough bool, _ []string, emit func(string)) {
 				}
 				pid++
 				kind := fmt.Sprintf("xs:o:%d", val())
-				if !full && vUuCur != nil {
-					if a, ok := vUmParseAddr(s); ok {
-						key := canonicalAddrPort(a.addrPort())
-						vUuCur.muxes[0].addressMapMu.Lock()
-						_, bound := vUuCur.muxes[0].addressMap[key]
-						vUuCur.muxes[0].addressMapMu.Unlock()
-						if bound || !vUuCur.outstanding[key] {
-							kind = "xn:o"
-						}
-					}
-				}
 				emit(fmt.Sprintf("udpmuxuni in 0 %s %s %d", s, kind, pid))
 				emit(fmt.Sprintf("udpmuxuni xoraddr %s %d", s, deadline()))
 				k += 3
